@@ -57,7 +57,7 @@ theorem nonlinear_power_eq (opq : String → ℝ → ℝ) (ρ : String → ℝ) 
 /-- delta_k = k³ P / (2π²) (used by C03 as well) -/
 theorem delta_k_eq (opq : String → ℝ → ℝ) (ρ : String → ℝ) :
     evalR opq ρ Gen.Flow.Transfer_delta_k = ρ "k" ^ 3 * ρ "power" / (2 * π ^ 2) := by
-  simp only [Gen.Flow.Transfer_delta_k]; expr_unfold; push_cast; simp only [zpow_ofNat]; norm_num
+  simp only [Gen.Flow.Transfer_delta_k]; expr_unfold <;> first | (push_cast; simp only [zpow_ofNat]; norm_num; done) | expr_finish
 
 open Real in
 set_option maxHeartbeats 1000000 in
